@@ -220,3 +220,89 @@ def c06_step(before, rpc, out, after, calls):
       if need_algo and oracle[0] == 'fail' and not (out[2]['done'] and out[2]['err']):
         v.append('algorithm failure not reported as a finished operation with an error')
   return v
+
+
+def _merge(old, new):
+  d = {}
+  for kv in old + new:
+    d[(kv[0], kv[1])] = kv
+  return sorted(d.values(), key=lambda kv: (kv[0], kv[1]))
+
+
+def c10_step(before, rpc, out, after):
+  """Metadata read-back is exact last-writer-wins; a failed update changes nothing."""
+  v = []
+  if rpc[0] != 'UpdateMetadata':
+    return v
+  _, o, sid, smd, tmd = rpc
+  nb, na = nodes_of(before), nodes_of(after)
+  key = (o, sid)
+  if key not in nb or nb[key]['study']['state'] not in ('SS_ACTIVE', 'SS_UNSPEC'):
+    return v
+  ids = {t['id'] for t in nb[key]['trials']}
+  missing = [tid for tid, _ in tmd if tid not in ids]
+  if missing:
+    if out[:2] != ('Done', 'RpMdError') and out[0] != 'Failed':
+      v.append('metadata update naming missing trial %s did not report an error' % missing)
+    if before != after:
+      v.append('failed metadata update changed stored data')
+    return v
+  if out[:2] != ('Done', 'RpEmpty'):
+    v.append('legal metadata update failed: %r' % (out[:2],))
+    return v
+  want_study = _merge(nb[key]['study']['md'], smd)
+  if na[key]['study']['md'] != want_study:
+    v.append('study metadata after update is not last-writer-wins')
+  for t in nb[key]['trials']:
+    t2 = [x for x in na[key]['trials'] if x['id'] == t['id']][0]
+    want = _merge(t['md'], [kv for tid, kv in tmd if tid == t['id']])
+    if t2['md'] != want:
+      v.append('trial %d metadata after update is not last-writer-wins' % t['id'])
+    if {k: x for k, x in t.items() if k != 'md'} != {k: x for k, x in t2.items() if k != 'md'}:
+      v.append('metadata update changed non-metadata fields of trial %d' % t['id'])
+  for k2 in nb:
+    if k2 != key and nb[k2] != na.get(k2):
+      v.append('metadata update touched another study')
+  return v
+
+
+def _dominates(q, p):
+  return all(a >= b for a, b in zip(q, p)) and any(a > b for a, b in zip(q, p))
+
+
+def _val(c):
+  import math
+  return {'nan': math.nan, 'inf': math.inf, '-inf': -math.inf}.get(c, c) if isinstance(c, str) else float(c)
+
+
+def c11_step(before, rpc, out, after):
+  """ListOptimalTrials = SUCCEEDED trials with all metrics (numbers) not dominated by another such trial."""
+  import math
+  v = []
+  if rpc[0] != 'ListOptimalTrials' or out[0] != 'Done':
+    return v
+  nb = nodes_of(before)
+  key = (rpc[1], rpc[2])
+  if key not in nb:
+    return v
+  metrics = nb[key]['study']['metrics']
+  cands = []
+  nan_listed = False
+  for t in nb[key]['trials']:
+    if t['state'] != 'SUCCEEDED':
+      continue
+    d = dict(t['final'])
+    if not all(m in d for m, _ in metrics):
+      continue
+    vec = [(_val(d[m]) if mx else -_val(d[m])) for m, mx in metrics]
+    cands.append((t['id'], vec))
+  good = [(i, vec) for i, vec in cands if not any(math.isnan(x) for x in vec)]
+  want = sorted(i for i, vec in good if not any(_dominates(w, vec) for _, w in good))
+  got = sorted(t['id'] for t in out[2])
+  nan_ids = {i for i, vec in cands if any(math.isnan(x) for x in vec)}
+  if got != want:
+    if nan_ids:
+      v.append('NAN: optimal trials %s differ from the definition %s in a study with a NaN objective' % (got, want))
+    else:
+      v.append('optimal trials %s differ from the non-dominated completed trials %s' % (got, want))
+  return v
